@@ -517,6 +517,20 @@ func runC12Scenario(run *rt.Run, sc c12Scenario) {
 			b.SetSuccessThreshold("to", -1)
 			b.SetSuccessThresholdSinks("", 1)
 			b.Send(ctx, "nope", 1)
+			// the same failures for event types the Broker has never seen (the first call for a type creates its
+			// bookkeeping, a failing first call has to leave cleanly)
+			b.RegisterPipeline(eventlogger.Pipeline{PipelineID: "bad", EventType: "fresh-1", NodeIDs: []eventlogger.NodeID{"ghost", "k"}})
+			b.RegisterPipeline(eventlogger.Pipeline{PipelineID: "bad", EventType: "fresh-2", NodeIDs: []eventlogger.NodeID{"x", "k"}})
+			b.RegisterPipeline(eventlogger.Pipeline{PipelineID: "bad", EventType: "fresh-3", NodeIDs: []eventlogger.NodeID{"k"}})
+			b.RegisterPipeline(eventlogger.Pipeline{PipelineID: "bad", EventType: "fresh-4", NodeIDs: []eventlogger.NodeID{"", "k"}})
+			b.RegisterPipeline(eventlogger.Pipeline{PipelineID: "bad", EventType: "fresh-5", NodeIDs: []eventlogger.NodeID{"x", "k"}}, eventlogger.WithPipelineRegistrationPolicy("bogus"))
+			b.RemovePipeline("fresh-6", "bad")
+			b.RemovePipelineAndNodes(ctx, "fresh-7", "bad")
+			b.SetSuccessThreshold("fresh-8", -1)
+			b.SetSuccessThresholdSinks("fresh-9", -1)
+			b.IsAnyPipelineRegistered("fresh-1")
+			b.SuccessThreshold("fresh-10")
+			b.SuccessThresholdSinks("fresh-10")
 		})
 	}
 	if ok {
